@@ -1,1 +1,73 @@
-def hello := "world"
+/-
+Shared vocabulary of every code model: bytes, big-endian 16-bit fields, hex
+text for the line protocol.  Core Lean only (no Mathlib) so the drivers start fast.
+-/
+namespace Sshuttle
+
+/-- A byte is a `Nat`; well-formed byte strings satisfy `WfBytes`.  Payload bytes
+travel through every model unchanged, so most theorems need no bound on them. -/
+abbrev Bytes := List Nat
+
+def WfBytes (b : Bytes) : Prop := ∀ x ∈ b, x < 256
+
+/-- Big-endian 16-bit field, as `struct.pack('!H', n)`. -/
+def be16 (n : Nat) : Bytes := [n / 256, n % 256]
+
+def unbe16 (hi lo : Nat) : Nat := hi * 256 + lo
+
+theorem unbe16_be16 (n : Nat) : unbe16 (n / 256) (n % 256) = n := by
+  unfold unbe16; omega
+
+/-! ### hex text used by the line protocol (driver only; never in a theorem) -/
+
+def hexDigit (n : Nat) : Char :=
+  if n < 10 then Char.ofNat (48 + n) else Char.ofNat (87 + n)
+
+def hexOfBytes (b : Bytes) : String :=
+  String.ofList (b.flatMap fun x => [hexDigit (x / 16 % 16), hexDigit (x % 16)])
+
+def hexVal (c : Char) : Option Nat :=
+  let n := c.toNat
+  if 48 ≤ n ∧ n ≤ 57 then some (n - 48)
+  else if 97 ≤ n ∧ n ≤ 102 then some (n - 87)
+  else if 65 ≤ n ∧ n ≤ 70 then some (n - 55)
+  else none
+
+def bytesOfHexAux : List Char → Option Bytes
+  | [] => some []
+  | [_] => none
+  | a :: b :: rest =>
+    match hexVal a, hexVal b, bytesOfHexAux rest with
+    | some x, some y, some r => some ((x * 16 + y) :: r)
+    | _, _, _ => none
+
+/-- `"-"` denotes the empty byte string so that every field is a non-empty token. -/
+def bytesOfHex (s : String) : Option Bytes :=
+  if s = "-" then some [] else bytesOfHexAux s.toList
+
+def hexTok (b : Bytes) : String := if b.isEmpty then "-" else hexOfBytes b
+
+def strOfBytes (b : Bytes) : String := String.ofList (b.map Char.ofNat)
+def bytesOfStr (s : String) : Bytes := s.toList.map Char.toNat
+
+def words (s : String) : List String :=
+  (s.splitOn " ").filter (· ≠ "")
+
+/-- Generic line loop: `step` consumes one input line and returns the new state and
+the output lines. -/
+partial def lineLoop {σ : Type} (h : IO.FS.Stream) (out : IO.FS.Stream)
+    (step : σ → String → σ × List String) (s : σ) : IO Unit := do
+  let line ← h.getLine
+  if line.isEmpty then
+    out.flush
+    return ()
+  let l := if line.back == '\n' then (line.dropEnd 1).toString else line
+  let (s', outs) := step s l
+  for o in outs do out.putStrLn o
+  if l == "#flush" then out.flush
+  lineLoop h out step s'
+
+def runDriver {σ : Type} (step : σ → String → σ × List String) (init : σ) : IO Unit := do
+  lineLoop (← IO.getStdin) (← IO.getStdout) step init
+
+end Sshuttle
